@@ -53,8 +53,6 @@ def step (line : String) : String :=
       match iterateChunks sh cso no with
       | .error .valueError =>
         res (.atom "value-error") (pyout == .atom "value-error") true "value-error"
-      | .error .indexError =>
-        res (.atom "index-error") (pyout == .atom "index-error") true "index-error"
       | .ok chunks =>
         -- product form must agree with the literal loop (refinement checked on every case)
         let eff := match cso, no with
@@ -65,7 +63,8 @@ def step (line : String) : String :=
         let same := prodForm == chunks
         let ok := match sexpToChunks? pyout with | some o => specIter sh cso no o | none => false
         res (chunksToSexp chunks) ok (specIter sh cso no chunks && same)
-          (if chunks.length ≤ 1 then "single" else if sh.length ≤ 1 then "multi-1d" else "multi-nd")
+          (if sh.length = 0 then "scalar-0d" else if chunks.length ≤ 1 then "single"
+           else if sh.length ≤ 1 then "multi-1d" else "multi-nd")
     | _, _, _ => bad "iter-args"
   | some (.list [.atom "comb", .list [len, s1, s2], pyout]) =>
     match len.toNat?, triple? s1, triple? s2 with
